@@ -276,10 +276,12 @@ def output_enabled_on_input(spec) -> bool:
             if classes_gen.out_name(f, opts) not in firm:
                 return False
     if out_format == 'tuple':
-        # positional input only reaches the non-keyword-only init fields, in order, with no excluded field in between
-        for f in fields:
-            if f.get('exclude') and not f['kw_only']:
-                return False
+        # positional input binds the non-keyword-only init fields in order: the emitted (non-excluded) positional fields
+        # must be exactly those (keyword-only fields in a tuple output are the listed known finding and stay judged)
+        emitted = [f['name'] for f in fields if not f.get('exclude') and not f['kw_only']]
+        accepted = [f['name'] for f in fields if f.get('init', True) and not f['kw_only']]
+        if emitted != accepted:
+            return False
     return True
 
 
